@@ -14,11 +14,25 @@ For the FIRST Save of a linear chain (one branch, any length, nothing saved befo
 itself is a theorem, `C12_first_save_crash_linear`: for EVERY prefix of the write sequence Load of
 the storage as it then is succeeds without error or panic and reports either the genesis-only
 chain (the index is not written yet — no Save was completed before, so nothing is lost) or
-exactly the chain being saved, tip and header at every height. Later Saves / Cleans over existing
-files, and forests with side branches, are covered by the enumeration only (`_partial`).
+exactly the chain being saved, tip and header at every height.
+
+For EVERY storage image — any history, any number of side branches, any index order, stale or unlinkable
+branch files, any crash point — `C12_load_any_image_sound` proves the Load half of the property outright:
+if every indexed branch file is consistent in itself (`StoreOK`: non-empty, internally linked, first entry
+of the index a root file, main-chain files present up to the height the files reach), Load succeeds without
+error or panic, and the best chain it reports is defined at every height from the lowest height the root
+branch keeps in memory up to the tip, consists of header records read from the stored branch files, each
+linked to the one below, and ends in the heaviest branch that could be linked (in particular at least as
+heavy as the stored root branch).  `StoreOK` has an executable test (`storeOKb`, proved sound) which the
+driver evaluates on every image the checks load, so the hypothesis is checked on the reachable images rather
+than assumed.  What remains enumerated only (`_partial`): that every prefix of the write sequence of a later
+Save / Clean of a forest leaves `StoreOK` images (preservation by consolidate + branch-file merging), and
+the part of the best chain below the in-memory window, which Load serves from the main-chain files.
 -/
 import BRV.Proofs.RepoBasics
 import BRV.Proofs.RepoCrash
+import BRV.Proofs.LoadSound
+import BRV.Proofs.RepoExample
 
 namespace BRV.Repo
 
@@ -123,5 +137,49 @@ theorem C12_first_save_sequence (r : Repo) (hl : Linear r) :
     ∃ (rs : Repo) (M : List StoreEv), save r = (rs, none) ∧ (∀ e ∈ M, e.isMain = true) ∧
       rs.events = r.events ++ (M ++ saveTail r) ∧ rs.store = (M ++ saveTail r).foldl Store.apply r.store :=
   save_linear_events r hl
+
+/-- **C12, the Load half, for every storage image.** Whatever history, crash point or corruption produced
+    the image: if it passes `StoreOK`, Load succeeds and its best chain is a linked chain of stored headers
+    from the lowest height kept in memory to the tip, ending in the heaviest linkable branch. -/
+theorem C12_load_any_image_sound (r0 : Repo) (depth : Int) (hd : 0 ≤ depth) (g : Hdr) (hs : StoreOK r0.store) :
+    ∃ r, load r0 depth g = (r, none) ∧
+      (∃ lo : Int, 0 ≤ lo ∧
+        (∃ (ri : Nat) (rb : Branch), r.arena[ri]? = some rb ∧ rb.parentHeight = -1 ∧ lo = rb.prunedLowest) ∧
+        (∀ x, lo ≤ x → x ≤ tipHeight r → ∃ d, r.at r.longest x = some d ∧ FromStore r0.store d) ∧
+        (∀ x d d', r.at r.longest x = some d → r.at r.longest (x - 1) = some d' → d.hdr.prev = d'.hdr.id)) ∧
+      (∃ wl, lastWork r.arena r.longest = some wl ∧
+        ∀ b ∈ r.branches, ∃ w, lastWork r.arena b = some w ∧ w ≤ wl) ∧
+      (∃ bi ∈ r.branches, (r.br bi).parentHeight = -1) := by
+  obtain ⟨r, hl, hok⟩ := load_sound r0 depth hd g hs
+  exact ⟨r, hl, loaded_best_chain _ r hok, hok.heaviest, hok.rooted⟩
+
+/-- the executable test of the hypothesis is sound. -/
+theorem C12_image_test_sound (s : Store) (h : storeOKb s = true) : StoreOK s := storeOKb_sound s h
+
+/-! non-vacuity: a forest with a side branch, saved; every crash prefix of that Save is an image the
+    theorem applies to, and Load of the complete image reports the heavier branch. -/
+def exFork : Repo :=
+  submitAll genesisRepo [({ id := 1, prev := 0, bits := 0x1d00ffff, time := 2 }, true),
+    ({ id := 2, prev := 1, bits := 0x1d00ffff, time := 3 }, true), ({ id := 3, prev := 2, bits := 0x1d00ffff, time := 4 }, true),
+    ({ id := 12, prev := 1, bits := 0x1d00ffff, time := 3 }, true), ({ id := 4, prev := 3, bits := 0x1d00ffff, time := 5 }, true)]
+
+example : exFork.branches.length = 2 ∧ (save exFork).2.isNone = true ∧
+    storeOKb (save exFork).1.store = true ∧
+    tipId (load (save exFork).1 10 { id := 0, prev := 99, bits := 0x1d00ffff, time := 1 }).1 = 4 := by decide
+
+/-- after that Save the side branch overtakes (a reorganisation); the second Save consolidates and rewrites
+    the files: EVERY prefix of its write sequence is an image that passes the test, and Load of each reports
+    the old tip (4) or the new one (16). -/
+def exFork2 : Repo :=
+  submitAll { (save exFork).1 with events := [] } [({ id := 5, prev := 4, bits := 0x1d00ffff, time := 6 }, true),
+    ({ id := 13, prev := 12, bits := 0x1d00ffff, time := 4 }, true), ({ id := 14, prev := 13, bits := 0x1d00ffff, time := 5 }, true),
+    ({ id := 15, prev := 14, bits := 0x1d00ffff, time := 6 }, true), ({ id := 16, prev := 15, bits := 0x1d00ffff, time := 7 }, true)]
+
+example : tipId exFork2 = 16 ∧ exFork2.longest = 1 ∧ (save exFork2).2.isNone = true ∧ (save exFork2).1.events.length = 6 ∧
+    (List.range 7).all (fun n =>
+      storeOKb (((save exFork2).1.events.take n).foldl Store.apply exFork2.store)) = true ∧
+    (List.range 7).map (fun n =>
+      tipId (load { exFork2 with store := ((save exFork2).1.events.take n).foldl Store.apply exFork2.store } 10
+        { id := 0, prev := 99, bits := 0x1d00ffff, time := 1 }).1) = [4, 4, 4, 16, 16, 16, 16] := by decide
 
 end BRV.Repo
